@@ -556,16 +556,26 @@ void ares_gethostbyaddr_nolock(ares_channel_t *channel, const void *addr,
 ares_status_t ares_dns_name_parse(ares_buf_t *buf, char **name,
                                   ares_bool_t is_hostname);
 
+/*! Name compression state while writing a DNS message.  Compression pointers
+ *  are offsets from the start of the message, which is not necessarily the
+ *  start of the buffer it is written to. */
+typedef struct {
+  ares_llist_t *names;     /*!< Names written so far and their offsets.
+                            *   Initialize to NULL, destroy with
+                            *   ares_llist_destroy() */
+  size_t        msg_start; /*!< Length of the buffer before the first byte of
+                            *   the message was written */
+} ares_dns_namelist_t;
+
 /*! Write the DNS name to the buffer in the DNS domain-name syntax as a
  *  series of labels.  The maximum domain name length is 255 characters with
  *  each label being a maximum of 63 characters.  If the validate_hostname
  *  flag is set, it will strictly validate the character set.
  *
  *  \param[in,out]  buf   Initialized buffer object to write name to
- *  \param[in,out]  list  Pointer passed by reference to maintain a list of
- *                        domain name to indexes used for name compression.
- *                        Pass NULL (not by reference) if name compression isn't
- *                        desired.  Otherwise the list will be automatically
+ *  \param[in,out]  list  Name compression state of the message being written.
+ *                        Pass NULL if name compression isn't desired.
+ *                        Otherwise the list of names will be automatically
  *                        created upon first entry.
  *  \param[in]      validate_hostname Validate the hostname character set.
  *  \param[in]      name              Name to write out, it may have escape
@@ -573,7 +583,7 @@ ares_status_t ares_dns_name_parse(ares_buf_t *buf, char **name,
  *  \return ARES_SUCCESS on success, most likely ARES_EBADNAME if the name is
  *          bad.
  */
-ares_status_t ares_dns_name_write(ares_buf_t *buf, ares_llist_t **list,
+ares_status_t ares_dns_name_write(ares_buf_t *buf, ares_dns_namelist_t *list,
                                   ares_bool_t validate_hostname,
                                   const char *name);
 
